@@ -700,6 +700,11 @@ func (tdsChan *Channel) tryParsePackage() bool {
 	}
 
 	tdsChan.packageCh <- pkg
-	tdsChan.lastPkgRx = pkg
+	// EED packages may be sent in between any packages, e.g. between
+	// a format package and its rows - they must not replace the
+	// package the following packages depend on.
+	if _, ok := pkg.(*EEDPackage); !ok {
+		tdsChan.lastPkgRx = pkg
+	}
 	return true
 }
